@@ -299,6 +299,13 @@ theorem C07_configuration_idempotent (nm : Naming) (a a' : Attr) (es : List Entr
     ∃ a'', applyConfig nm a' es = .ok a'' ∧ (∀ x, a''.prio x = a'.prio x ∧ a''.seq x = a'.seq x) :=
   GM.applyConfig_idempotent nm a a' es h
 
+/-- C07 / C05: a configuration that states sequential flags only (an entry without a priority, or restating nothing) applies
+    those flags (`C07_configuration_law`) and leaves every priority and every compound priority as it was. -/
+theorem C07_flags_only_configuration_keeps_the_table (g : GM.G) (nm : Naming) (a a' : Attr) (es : List Entry)
+    (h : applyConfig nm a es = .ok a') (hnone : ∀ e ∈ es, e.prio = none) :
+    (∀ x, a'.prio x = a.prio x) ∧ (∀ x, cpAll g a'.prio x = cpAll g a.prio x) :=
+  ⟨GM.applyConfig_no_priority_stated nm a a' es h hnone, GM.applyConfig_no_priority_stated_cp g nm a a' es h hnone⟩
+
 /-- C07, refused configurations: one malformed entry anywhere (a priority that is not an int, an entry that is not a
     mapping) refuses the whole configuration, and a refused configuration — unknown alias, ambiguity or malformed entry —
     leaves every attribute, hence every compound priority, exactly as it was (`reconfigure` = the state after the call,
